@@ -62,7 +62,8 @@ type attempt struct {
 	ok         bool
 	done       bool
 	retry      bool
-	delayed    bool // the harness injected a delay or yields into the operation
+	origRev    uint64 // revision of the change being reconciled: the revision passed to the first attempt
+	delayed    bool   // the harness injected a delay or yields into the operation
 	seq        uint64
 }
 
@@ -78,8 +79,8 @@ type tver struct {
 
 type roundEnd struct {
 	at      time.Duration
-	strict  map[uint64]uint64 // keys awaiting retry for sure -> revision passed to the failed attempt
-	loose   map[uint64]uint64 // keys whose last attempt failed
+	strict  map[uint64]uint64 // keys awaiting retry for sure -> revision of the change being retried
+	loose   map[uint64]uint64 // keys whose last attempt failed -> revision of the change being retried
 	current int               // ReconciliationErrors current
 }
 
@@ -459,6 +460,8 @@ func (w *world) userWrite(t *simcore.Task, only *uint64) {
 	}
 	defer wtxn.Abort()
 	nOps := 1 + c.Choose(2)
+	inserted := map[uint64]bool{}
+	gone := map[uint64]bool{}
 	for j := 0; j < nOps; j++ {
 		id := uint64(1 + c.Choose(w.nIDs))
 		if only != nil {
@@ -472,6 +475,7 @@ func (w *world) userWrite(t *simcore.Task, only *uint64) {
 		switch {
 		case kind == 1 && exists:
 			w.table.Delete(wtxn, &RObj{ID: id})
+			gone[id] = true
 			w.S.Logf("%s deletes object %d", t.Name, id)
 		case kind == 2 && exists:
 			// delete and re-insert in one transaction
@@ -484,13 +488,26 @@ func (w *world) userWrite(t *simcore.Task, only *uint64) {
 				o.S[i] = reconciler.StatusPending()
 			}
 			w.table.Insert(wtxn, o)
+			inserted[id] = true
+			delete(gone, id)
 			w.S.Logf("%s writes object %d val=%d ver=%d", t.Name, id, o.Val, o.Ver)
 		}
 	}
 	w.userBusy = true
-	w.guard("C14", "Commit", func() { wtxn.Commit() })
+	var rtxn statedb.ReadTxn
+	invokedAt := w.S.Now()
+	w.guard("C14", "Commit", func() { rtxn = wtxn.Commit() })
 	w.userBusy = false
 	w.progress++
+	// an object created and deleted within this one transaction is invisible to the auditor's
+	// table diff, but it supersedes an earlier deletion of the same key (a new deletion revision)
+	if rtxn != nil {
+		for id := range gone {
+			if inserted[id] {
+				w.history[id] = append(w.history[id], tver{rev: w.table.Revision(rtxn), ver: -2 - w.userVer, byUser: true, at: invokedAt})
+			}
+		}
+	}
 }
 
 // onStep is the auditor: it observes every published table version and
@@ -674,8 +691,10 @@ func (o *opsSeam) begin(obj *RObj, rev uint64, del bool) *attempt {
 	w.S.HookYield("op.begin")
 	st := obj.S[o.rc.idx]
 	a := &attempt{rec: o.rc.idx, id: obj.ID, val: obj.Val, ver: obj.Ver, rev: rev, del: del, kind: kindOf(st), statusID: st.ID, start: w.S.Now(), seq: w.S.Seq()}
+	a.origRev = rev
 	if last := o.rc.last[obj.ID]; last != nil && !last.ok && last.ver == obj.Ver && last.del == del {
 		a.retry = true
+		a.origRev = last.origRev
 	}
 	o.rc.attempts = append(o.rc.attempts, a)
 	if !del && !a.retry && a.kind != "Pending" && a.kind != "Refreshing" {
@@ -844,9 +863,9 @@ func (m *recMetrics) ReconciliationErrors(_ cell.FullModuleID, _ string, newErrs
 		if a.ok {
 			continue
 		}
-		re.loose[id] = a.rev
+		re.loose[id] = a.origRev
 		if a.del || rc.errored[id] {
-			re.strict[id] = a.rev
+			re.strict[id] = a.origRev
 		}
 	}
 	rc.rounds = append(rc.rounds, re)
